@@ -69,7 +69,7 @@ Proof.
   exists w. repeat split; auto. unfold run_case, run_cfg. cbn [cfg_of c_max c_lp c_env]. rewrite Hn. reflexivity.
 Qed.
 
-(* full statement (not proved as one theorem):
+(* full statement (proved as C09_spec_ok_on_model in Properties.v):
      forall c, spec_ok c (run_case c) = true
    proved here: totality, output shape, and the framing/size clause of spec_ok on every yielded
    payload.  The WriteResult clause is [counts_ok_on_model]; the message/conservation clause is
